@@ -241,3 +241,33 @@ def game_stats(game):
 def coin(draw):
     """A balanced boolean (Hypothesis' own booleans() lean towards False in the generate phase)."""
     return draw(st.integers(0, 7)) % 2 == 1
+
+
+def slow_choice_games(tier="quick"):
+    """Planted: a root player state chooses between a slowly escaping rewarded self-loop (worth exactly
+    1/eps after thousands of sweeps) and a one-step branch worth slightly less; both reach the final
+    state with probability 1, so only the reward decides.  Exercises solves that need 10^3..10^5 sweeps
+    (quick) and up to about 4 x 10^5 sweeps (thorough)."""
+    tier = __import__("os").environ.get("VERIF_TIER_EFFECTIVE", tier)
+    combos = [(1 / 256, 10.0, P1, False, True), (1 / 256, 0.05, P2, True, False),
+              (1 / 2048, 10.0, P1, True, False), (1 / 2048, 0.05, P1, False, True), (1 / 2048, 10.0, P2, False, False)]
+    if tier != "quick":
+        for eps in (1 / 256, 1 / 2048, 5e-4):
+            for delta in (10.0, 0.05):
+                for owner in (P1, P2):
+                    for flip in (False, True):
+                        for with_dead in (False, True):
+                            combos.append((eps, delta, owner, flip, with_dead))
+        combos += [(1 / 8192, 10.0, P1, False, False), (1 / 8192, 0.05, P2, True, True), (2.0 ** -14, 25.0, P1, True, False)]
+    for eps, delta, owner, flip, with_dead in combos:
+        loop_val = 1 / eps
+        acts = [("a", 3), ("b", 2)] if flip else [("a", 2), ("b", 3)]
+        players = [owner, PR, PR, PR]
+        tl = [acts, [(1, 1)], [(1 - eps, 2), (eps, 1)], [(1, 1)]]
+        rew = [0, 0, 1, loop_val - delta]
+        if with_dead:      # a dead sibling below the loop so that pruning renormalises it
+            players += [PR]
+            tl[2] = [(1 - eps, 2), (eps / 2, 1), (eps / 2, 4)]
+            tl.append([(1, 4)])
+            rew.append(0)
+        yield dict(rewards=rew, players=players, transition_list=tl, final_states=[1])
